@@ -87,15 +87,6 @@ theorem C14_entries_once (c : WalkCfg) (excl : List Str → Bool → Bool) (rel'
   · intro f
     rw [List.mem_filter, mem_sortStrs, mem_keptFiles, and_assoc]
 
-theorem mem_stem {x : Char} {f : Str} (h : x ∈ stem f) : x ∈ f := by
-  unfold stem at h
-  split at h
-  · simp at h
-  · rename_i y rest heq
-    have h1 : x ∈ y :: rest := List.mem_cons_of_mem _ (List.mem_reverse.1 h)
-    rw [← heq] at h1
-    exact List.mem_reverse.1 ((List.dropWhile_sublist _).subset h1)
-
 /-- The toctree entry strings are pairwise distinct, provided the stems of the listed CMake files are distinct
     (this is an explicit hypothesis: `a.cmake` and `a.CMake` share the stem `a` — known finding K4) and no file
     name contains `/`. -/
@@ -261,11 +252,6 @@ theorem C14_reachable {c : WalkCfg} {excl : List Str → Bool → Bool} {rel : L
     exact key _ _ hproc
 
 /-! ## Non-vacuity: the example tree of `WalkSpec.lean` -/
-
-theorem ex_sub_processed : Processed exCfg exExcl [] exTree [lit "sub"]
-    [ .file (lit "c.cmake") [], .dir (lit "deep") [.file (lit "d.cmake") []],
-      .dir (lit "nocmake") [.file (lit "x.txt") []] ] :=
-  .sub .root rfl (n := lit "sub") (by simp [exTree]) (by decide)
 
 -- the index of `sub`: title `P.sub`, toctree `deep/index.rst` (the auto-excluded `nocmake` is absent), then `c`
 set_option maxRecDepth 8192 in
